@@ -352,6 +352,18 @@ def run_mesh(case, seed):
             td2.set_draw_area(freq_min=lo, freq_max=hi, freq_pitch=pitch)
             td2.run()
             e = np.abs(np.array(td2.dos) - dos).max() / max(dos.max(), 1e-12)
+            if e <= 1e-9 and not ms:
+                # the public wrapper of the kernel evaluates the DOS at whatever frequency points the caller lists, in any order
+                from phonopy.phonon.dos import run_tetrahedron_method_dos
+                from phonopy.structure.tetrahedron_method import TetrahedronMethod as _TM
+
+                tm_ = _TM(np.linalg.inv(np.asarray(ph.primitive.cell)), mesh=m.mesh_numbers)
+                g_ = np.random.default_rng(17)
+                for oname, perm in (("ascending", np.arange(len(fp))), ("descending", np.arange(len(fp))[::-1]), ("shuffled", g_.permutation(len(fp)))):
+                    got_ = run_tetrahedron_method_dos(m.mesh_numbers, np.array(fp[perm], dtype="double", order="C"), m.frequencies, m.grid_address, m.grid_mapping_table, tm_.tetrahedra)
+                    e2 = np.abs(np.asarray(got_) - dos[perm]).max() / max(dos.max(), 1e-12)
+                    if e2 > 1e-9:
+                        return fail("frequency-point-order", "run_tetrahedron_method_dos with the frequency points in %s order differs from the ascending evaluation by %.3g (rel)" % (oname, e2), float(e2))
             if e > 1e-9:
                 return fail("omp-kernel-vs-iterator", "mesh_symmetry=%s: the compiled whole-mesh tetrahedron DOS differs from the per-grid-point iterator by %.3g (rel)" % (ms, e), float(e))
         if not ms:
